@@ -219,9 +219,11 @@ class LinkerScripted(BoundedCheck):
         return out
 
 
+from contracts.c05_solve import LinkerSolveContract  # noqa: E402
+
 PROPERTY = PropertySpec(
     id='C08',
-    contracts=list(LINKER_CONTRACTS),
+    contracts=list(LINKER_CONTRACTS) + [LinkerSolveContract()],
     bounded=[LinkerScripted()],
     level='other',
     explanation='BaseLinker.solve_t (with evaluate_t inlined from source) is executed symbolically for every linker shape of the catalogue '
